@@ -288,7 +288,19 @@ func normalisedRun(r *report.Report, c *rules.Ctx, f rules.PropertyFunc, tier st
 	// block); thin: a wrapper without control flow.  Stage 1 inlines what the functions a violation points at
 	// call; stage 2 the extracted blocks no discharged obligation of any property speaks about; stage 3
 	// additionally the private functions violations point at.
-	stages := []func(h, caller *types.Func, shared, thin bool) bool{
+	// thin wrappers around a store / bank primitive are what the rules recognise effects by: they stay
+	effectWrapper := func(h *types.Func, thin bool) bool {
+		if !thin {
+			return false
+		}
+		for _, pr := range progs {
+			if fn := pr.L.Prog.FuncValue(h); fn != nil {
+				return len(pr.StoreOps(fn))+len(pr.BankOps(fn)) > 0
+			}
+		}
+		return false
+	}
+	rawStages := []func(h, caller *types.Func, shared, thin bool) bool{
 		func(h, caller *types.Func, shared, thin bool) bool {
 			return sus[caller.FullName()] && !sus[h.FullName()] && !sem[h.FullName()]
 		},
@@ -314,6 +326,13 @@ func normalisedRun(r *report.Report, c *rules.Ctx, f rules.PropertyFunc, tier st
 			allNames()
 			return susAll[h.FullName()] || !semAll[h.FullName()]
 		},
+	}
+	var stages []func(h, caller *types.Func, shared, thin bool) bool
+	for _, st := range rawStages {
+		st := st
+		stages = append(stages, func(h, caller *types.Func, shared, thin bool) bool {
+			return !effectWrapper(h, thin) && st(h, caller, shared, thin)
+		})
 	}
 	type modSpec struct {
 		module   string
@@ -400,6 +419,24 @@ func checkNormalised(r *report.Report, f rules.PropertyFunc, tier string, overla
 	}
 	note := fmt.Sprintf("%d call site(s) of private single-caller helpers inlined: %s", len(inlined), strings.Join(inlined, "; "))
 	if r2.Pending() == 0 {
+		// the equivalent program must not pass by making rules vacuous: per rule it discharges at least as many
+		// obligations as the program as written did
+		okBefore, okAfter := map[string]int{}, map[string]int{}
+		for _, o := range r.Obls {
+			if o.Status == report.OK {
+				okBefore[o.Rule]++
+			}
+		}
+		for _, o := range r2.Obls {
+			if o.Status == report.OK {
+				okAfter[o.Rule]++
+			}
+		}
+		for rule, n := range okBefore {
+			if okAfter[rule] < n {
+				return nil, note + fmt.Sprintf(" — rejected: rule %s discharges %d obligation(s) on the equivalent program, %d on the program as written", rule, okAfter[rule], n)
+			}
+		}
 		return r2, note
 	}
 	if os.Getenv("MHUBSA_DEBUGNORM") != "" {
